@@ -91,9 +91,23 @@ def summary(W, p):
 
     tasks = sorted((nid_of(t["nid"]), t["kind"], t["state"]) for t in p.tasks())
     msgs = sorted((m["type"], nid_of(m["nid"]), m["state"], m["key"] if m["nid"] in p.known else "", repr((m.get("inputs") or {}).get("params")),
-                   repr(sorted((k, repr(v)) for k, v in (m.get("outputs") or {}).items()))) for m in W.messages if m["pid"] == p.pid)
-    evs = [(e[0], e[1]["state"], repr(sorted((e[1].get("outputs") or {}).items()))) for e in W.events if e[1]["pid"] == p.pid]
+                   repr(sorted((k, repr(v)) for k, v in (m.get("outputs") or {}).items())), _inputs_repr(m.get("inputs"))) for m in W.messages if m["pid"] == p.pid)
+    evs = [(e[0], e[1]["state"], repr(sorted((e[1].get("outputs") or {}).items())), _inputs_repr(e[1].get("inputs"))) for e in W.events if e[1]["pid"] == p.pid]
     return dict(tasks=tasks, messages=msgs, events=evs)
+
+
+def _inputs_repr(inputs):
+    """Inputs of a message / event as the client sees them, without what legitimately differs between two runs (ids, generator options, link keys)."""
+    if not isinstance(inputs, dict):
+        return repr(inputs)
+    out = []
+    for k, v in inputs.items():
+        if k in ("pid", "params", "options", "error") or str(k).startswith("$"):
+            continue
+        if k == "step" and isinstance(v, dict):
+            v = {kk: vv for kk, vv in v.items() if kk != "task_id"}
+        out.append((k, repr(v)))
+    return repr(sorted(out))
 
 
 class Driver:
@@ -360,8 +374,8 @@ def _real_summary(obs, known, pid_index=0):
     nid_of = lambda n: n if n in known else "<dyn>"
     tasks = sorted((nid_of(t["nid"]), t["kind"], t["state"]) for t in p["tasks"])
     msgs = sorted((m["type"], nid_of(m["nid"]), m["state"], m["key"] if m["nid"] in known else "", repr((m.get("inputs") or {}).get("params")),
-                   repr(sorted((k, repr(v)) for k, v in (m.get("outputs") or {}).items()))) for m in obs["messages"] if m["pid"] == p["pid"])
-    evs = [(e[0], e[1]["state"]) for e in obs["events"] if e[1]["pid"] == p["pid"]]
+                   repr(sorted((k, repr(v)) for k, v in (m.get("outputs") or {}).items())), _inputs_repr(m.get("inputs"))) for m in obs["messages"] if m["pid"] == p["pid"])
+    evs = [(e[0], e[1]["state"], _inputs_repr(e[1].get("inputs"))) for e in obs["events"] if e[1]["pid"] == p["pid"]]
     return dict(tasks=tasks, messages=msgs, events=evs)
 
 
